@@ -936,7 +936,7 @@ def run_multi(ctx, case):
         ctx.oracle(len(t.nodes) == len(nodes), 'in_volume with several volumes modified the input neuron', case)
 
 
-SIG_IMAT_DUP = 'intersection_matrix/list-of-volumes/duplicate-names/volume-silently-dropped'
+SIG_IMAT_DUP = 'intersection_matrix/list-of-volumes/duplicate-names/volume-silently-dropped'      # fixed (5cc1939): no longer suppressed
 
 
 def run_imat(ctx, case):
@@ -958,25 +958,30 @@ def run_imat(ctx, case):
     vols = {k: v for k, v in built} if how == 'dict' else [v for _, v in built]
     kw = {} if mode == 'IN' and case.get('default_mode') else {'mode': mode}
     df, err = safe(lambda: navis.intersection_matrix(x, vols, attr=attr, **kw))
+    ts = ' # '.join(f'{nodes_str(n)}~{tconns_str(c)}' for n, c in trees)
+    if dup:         # a list with a duplicated Volume.name is refused (as by in_volume), never silently shortened
+        ctx.count('imat', f'{how}/dup-names')
+        ctx.corr('ERR:dup' if err and 'Duplicate' in err else f'no error ({err}); rows {list(df.index) if err is None else None}',
+                 ctx.ask(f'c18.imatlist {mode} | {vols_str(named)} | {ts}'),
+                 'intersection_matrix with a list of volumes sharing a name is refused', case)
+        ctx.oracle(err is not None, f'intersection_matrix(list of volumes named {names}) answered rows '
+                                    f'{list(df.index) if err is None else None}: a volume was silently dropped', case)
+        return
     if err:
         ctx.oracle(False, f'intersection_matrix raised: {err}', case); return
     if attr is None:
         df = df.map(lambda n: len(n.nodes))
-    ts = ' # '.join(f'{nodes_str(n)}~{tconns_str(c)}' for n, c in trees)
     if attr in ('n_nodes', None):
-        # the model builds the dict the way the code does (`{v.name: v for v in volumes}`: a later volume of the same name
-        # replaces the earlier one in the earlier one's position)
-        model = ctx.ask(f'c18.imat {mode} | {vols_str(named)} | {ts}')
+        model = ctx.ask(f"c18.{'imatlist' if how == 'list' else 'imat'} {mode} | {vols_str(named)} | {ts}")
         impl = sorted(f"{k}:{ints(df.loc[k].values)}" for k in df.index)
         ctx.corr(impl, sorted(model.split('/')), f'intersection_matrix(attr={attr}, mode={mode}, {how}) vs model', case)
     ctx.oracle(list(df.columns) == [i + 1 for i in range(len(trees))],
                f'intersection_matrix columns {list(df.columns)} are not the neuron ids', case)
     # every volume is answered under its own name
     ctx.oracle(sorted(df.index) == sorted(names),
-               f'intersection_matrix rows {list(df.index)}: not one row per volume {names} (a volume was dropped)', case,
-               signature=SIG_IMAT_DUP if (dup and how == 'list') else None)
+               f'intersection_matrix rows {list(df.index)}: not one row per volume {names} (a volume was dropped)', case)
     # cell == number of nodes (connectors) exactly inside / outside that volume alone
-    last = {k: g for k, g in named}          # with duplicated names the surviving row is the LAST volume of that name
+    last = {k: g for k, g in named}
     for k in df.index:
         g = last[k]
         for i, (n, c) in enumerate(trees):
@@ -1064,7 +1069,7 @@ def _unique(data, p):
 # ---------------------------------------------------------------------------------------------------------------
 # (e) volume histories: ONE Volume object queried, changed in place, queried again (+ copies / pickles in between)
 # ---------------------------------------------------------------------------------------------------------------
-SIG_PYOC_STALE = 'in_volume_pyoc/stale-pyoctree-attribute/in-place-change-other-than-resize'
+SIG_PYOC_STALE = 'in_volume_pyoc/stale-pyoctree-attribute/in-place-change-other-than-resize'      # fixed (d29361d): no longer suppressed
 
 _REC = {'key': None, 'used': [], 'built': 0}
 
@@ -1373,8 +1378,7 @@ def run_hist(ctx, case):
         stale_cache_possible = spec_attr.get(eff_b, '-') != '-'
         ctx.count('hist_fresh_flag', f'{eff_b}/model={m_fresh}/navis={ {None: "?", True: "1", False: "0"}[fresh] }')
         ctx.count('hist_structures_built', f'{eff_b}/{built}')
-        # the open finding covers in-place changes OTHER than Volume.resize (which deletes the attribute)
-        sig = SIG_PYOC_STALE if (eff_b == 'pyoctree' and shim and any(m != 'resize' for m in muts)) else None
+        sig = None      # (the stale `volume.pyoctree` finding is fixed: d29361d — a stale octree is a violation again)
         # (1) navis' answer vs the model's answer on the geometry the generated spec says is used, (2) the property: the
         # answer is the inside/outside mask of the CURRENT geometry of this object (decided by Lean `mem`)
         if eff_b != 'pyoctree':      # in_volume_pyoc rounds intersections to integers: its masks are not judged (freshness is)
@@ -2044,7 +2048,7 @@ def gen_cases(ctx):
                 continue
             yield 'multi', {'vols': named, 'how': how, 'target': 'tree', 'nodes': nodes, 'conns': conns}
     for i in range(ctx.budget(25, 200)):
-        k = rnd.choice((1, 2, 3))
+        k = rnd.choice((1, 2, 3)) if i % 5 != 4 else rnd.choice((2, 3))       # every fifth case: a list with a duplicated name
         pose = gen_pose(rnd)
         vols = []
         for j in range(k):
@@ -2065,7 +2069,8 @@ def gen_cases(ctx):
         if not trees:
             continue
         how = rnd.choice(['dict', 'list'])
-        if how == 'list' and k > 1 and i % 5 == 4:
+        if i % 5 == 4:
+            how = 'list'
             names[-1] = names[0]
         yield 'imat', {'vols': list(zip(names, vols)), 'how': how, 'mode': rnd.choice(['IN', 'OUT']),
                        'default_mode': rnd.random() < 0.5, 'trees': trees, 'attr': ['n_nodes', 'n_nodes', None, 'n_connectors'][i % 4],
